@@ -111,3 +111,32 @@ PROPS["C15"] = dict(
           "stream is longer than the window; distinct = distinct case text."),
     assumptions=["decisions are 0/1 (what vad_classify returns without error)"],
 )
+
+_DECODE_RULE = ("choices decode to (decoder: default | compallsen; beams default/tight/open, lw, wip, pip, fillers and alternates on/off; grammar through "
+                "JSGF text (generated AST) | FSG text (arc list, null arcs, loops) | alignment text over a 67-entry dictionary; audio 0-60000 samples from "
+                "{speech excerpt (reversed/clipped), noise, silence, DC, square, impulses, sine}; chunk plan incl. single samples, no_search chunks, full_utt; "
+                "partial queries after chunks). ")
+
+PROPS["C01"] = dict(
+    harness="decode",
+    level="exploration",
+    technique="property-based testing with a validity predicate: the harness' own acceptor (Thompson NFA of the JSGF AST / FSG arc list / alignment chain) and a path simulation over the grammar the search holds",
+    level_text="Every generated decode's final segmentation (labels incl. fillers, alternates, null markers) must simulate a start->final path of the augmented grammar, its real words must be accepted by the harness' own acceptor of the grammar as written, the hypothesis string must equal that projection, and partial results must be prefix paths. Exploration over grammars, audio, beams, chunkings and query points.",
+    level_note="Trusted: fsa.h acceptor and the Thompson construction (jsgfgen.h), the dictionary's filler flag. Each case runs in a forked child of a process holding pristine decoders.",
+    quick=dict(cases=260, maxlen=600, budget=100),
+    thorough=dict(cases=6000, maxlen=600, budget=1200),
+    rule=_DECODE_RULE + "Non-trivial = final hypothesis with >= 2 real words, or a non-NULL partial hypothesis; distinct = distinct case text.",
+    assumptions=["grammar words are dictionary words", "JSGF grammars in this harness are non-recursive (recursion is judged by C05)"],
+)
+
+PROPS["C03"] = dict(
+    harness="decode",
+    level="exploration",
+    technique="property-based testing of invariants over one result: tiling cursor rule, hypothesis == projection, telescoping score sum, frame bookkeeping against the closed-form frame count",
+    level_text="For every generated decode, final and partial: segments tile from frame 0 (null segments are zero-length markers at cursor-1), none extends past the frames searched, hyp equals the base forms of the non-filler words, ascr+lscr sums to the path score, returned frame counts equal the search's frame counter, decoder_n_frames moves by the returned count, and the total equals the front end's closed-form frame count for the samples supplied.",
+    level_note="Trusted: the closed-form frame count (validated against the front end on every C06 case), read-only access to the search's frame counter.",
+    quick=dict(cases=260, maxlen=600, budget=100),
+    thorough=dict(cases=6000, maxlen=600, budget=1200),
+    rule=_DECODE_RULE + "Non-trivial = a result with >= 3 segments of which at least one is a filler or a null marker; distinct = distinct case text.",
+    assumptions=["16 kHz / 100 frames per second decoders (410-sample window, 160-sample shift)"],
+)
